@@ -404,7 +404,10 @@ func requireFuncs(w *World, r *Report, names ...string) (map[string]*ssa.Functio
 	ReportIdxWidth(w, r, names...)
 	ReportWordWidth(w, r, names...)
 	ReportPanicSites(w, r, names...)
+	ReportDeadLoads(w, r, names...)
 	ReportAllocWrap(w, r, names...)
+	ReportAllocSign(w, r, names...)
+	ReportArrayBound(w, r, names...)
 	seenPkg := map[string]bool{}
 	var shorts []string
 	for _, n := range names {
